@@ -53,6 +53,7 @@ Proof.
   destruct (byte_off_is_char_boundary _ _ Hv Hr) as [Hi0 _].
   destruct (byte_off_is_char_boundary _ _ Hv' Hr') as [Hi1 _].
   unfold step_spec. split; [exists (dot b'); apply rune_index_sound; exact Hi1|].
+  split; [intros _; apply valid_encode_all; exact Hv'|].
   exists (dot b), (dot b').
   split; [apply rune_index_sound; exact Hi0|]. split; [apply rune_index_sound; exact Hi1|].
   split; [exact Hi0|]. split; [exact Hi1|].
@@ -95,7 +96,7 @@ Proof.
   assert (Hv' : all_valid (content b')) by (apply apply_cmd_valid; assumption).
   destruct (byte_off_is_char_boundary _ _ Hv Hr) as [Hi0 _].
   destruct (byte_off_is_char_boundary _ _ Hv' Hr') as [Hi1 Hb1].
-  unfold check_step. rewrite Hb1, Hi0, Hi1. cbn [andb].
+  unfold check_step. rewrite Hb1, Hi0, Hi1, (valid_encode_all _ Hv'), Bool.orb_true_r. cbn [andb].
   rewrite !decode_all_encode_all by assumption.
   apply andb_true_iff. split; [apply andb_true_iff; split|].
   - destruct (is_kill c) eqn:Ek; [|reflexivity].
